@@ -20,10 +20,9 @@ theorem stepIter_sinv {sh sh' : Shared} {t : Tid} {it it' : Iter}
     · cases h
     · simp only [Option.some.injEq, Prod.mk.injEq] at h
       obtain ⟨rfl, rfl⟩ := h
-      exact ⟨⟨hs.cache_eq, hs.pos_le, hs.len_ok, hs.none_len, hs.compl_none, hs.noraise⟩, ⟨rfl, Nat.le_refl _, id, id, id⟩⟩
+      exact ⟨⟨hs.cache_eq, hs.pos_le, hs.len_ok, hs.none_len, hs.compl_none⟩, ⟨rfl, rfl, Nat.le_refl _, id, id, id⟩⟩
   · -- l138
-    rw [step138_eq hs.noraise] at h
-    unfold step138ok at h
+    unfold step138 at h
     split at h
     · rename_i x hx
       simp only [Option.some.injEq, Prod.mk.injEq] at h
@@ -32,37 +31,44 @@ theorem stepIter_sinv {sh sh' : Shared} {t : Tid} {it it' : Iter}
         by_cases hc : sh.genPos < sh.src.length
         · exact hc
         · rw [List.getElem?_eq_none (by omega)] at hx; cases hx
-      refine ⟨⟨?_, ?_, ?_, hs.none_len, hs.compl_none, hs.noraise⟩, ⟨rfl, by simp, ?_, id, id⟩⟩
+      refine ⟨⟨?_, ?_, ?_, hs.none_len, hs.compl_none⟩, ⟨rfl, rfl, by simp, ?_, id, id⟩⟩
       · simp only []
         rw [hs.cache_eq, take_snoc hx]
       · simp only []; omega
       · intro n hn
         have := hs.len_ok n hn
         simp only [] at this ⊢
-        omega
+        exfalso; omega
       · intro he; exact he
     · rename_i hx
-      simp only [Option.some.injEq, Prod.mk.injEq] at h
-      obtain ⟨rfl, rfl⟩ := h
       have hge : sh.src.length ≤ sh.genPos := by
         by_cases hc : sh.genPos < sh.src.length
         · rw [List.getElem?_eq_getElem hc] at hx; cases hx
         · omega
       have heq : sh.genPos = sh.src.length := by have := hs.pos_le; omega
-      refine ⟨⟨hs.cache_eq, hs.pos_le, ?_, ?_, hs.compl_none, hs.noraise⟩, ⟨rfl, Nat.le_refl _, ?_, id, id⟩⟩
-      · intro n hn
-        simp only [Option.some.injEq] at hn
-        simp only []
-        omega
-      · intro _; simp
-      · intro _; simp only [Exh]; rw [heq]
+      split at h
+      · rename_i hne
+        simp only [Option.some.injEq, Prod.mk.injEq] at h
+        obtain ⟨rfl, rfl⟩ := h
+        refine ⟨⟨hs.cache_eq, hs.pos_le, ?_, ?_, hs.compl_none⟩, ⟨rfl, rfl, Nat.le_refl _, ?_, id, id⟩⟩
+        · intro n hn
+          simp only [Option.some.injEq] at hn
+          simp only []
+          exact ⟨by omega, by omega, hne⟩
+        · intro _; simp
+        · intro _; simp only [Exh]; rw [heq]
+      · -- the generator raises E: nothing of the shared state changes but the lock
+        split at h <;> (
+          simp only [Option.some.injEq, Prod.mk.injEq] at h
+          obtain ⟨rfl, rfl⟩ := h
+          exact ⟨⟨hs.cache_eq, hs.pos_le, hs.len_ok, hs.none_len, hs.compl_none⟩, ⟨rfl, rfl, Nat.le_refl _, id, id, id⟩⟩)
   · -- l140
     rename_i hpc
     rw [hpc] at hl
     simp only [Option.some.injEq, Prod.mk.injEq] at h
     obtain ⟨rfl, rfl⟩ := h
     have he : sh.len = some sh.src.length := hl.2
-    refine ⟨⟨hs.cache_eq, hs.pos_le, hs.len_ok, ?_, ?_, hs.noraise⟩, ⟨rfl, Nat.le_refl _, id, id, fun _ => rfl⟩⟩
+    refine ⟨⟨hs.cache_eq, hs.pos_le, hs.len_ok, ?_, ?_⟩, ⟨rfl, rfl, Nat.le_refl _, id, id, fun _ => rfl⟩⟩
     · intro _; simp only []; rw [he]; simp
     · intro _; rfl
   · -- l141
@@ -70,11 +76,11 @@ theorem stepIter_sinv {sh sh' : Shared} {t : Tid} {it it' : Iter}
     rw [hpc] at hl
     simp only [Option.some.injEq, Prod.mk.injEq] at h
     obtain ⟨rfl, rfl⟩ := h
-    exact ⟨⟨hs.cache_eq, hs.pos_le, hs.len_ok, hs.none_len, fun _ => hl.2.2, hs.noraise⟩, ⟨rfl, Nat.le_refl _, id, fun _ => rfl, id⟩⟩
+    exact ⟨⟨hs.cache_eq, hs.pos_le, hs.len_ok, hs.none_len, fun _ => hl.2.2⟩, ⟨rfl, rfl, Nat.le_refl _, id, fun _ => rfl, id⟩⟩
   · -- l144
     simp only [Option.some.injEq, Prod.mk.injEq] at h
     obtain ⟨rfl, rfl⟩ := h
-    exact ⟨⟨hs.cache_eq, hs.pos_le, hs.len_ok, hs.none_len, hs.compl_none, hs.noraise⟩, ⟨rfl, Nat.le_refl _, id, id, id⟩⟩
+    exact ⟨⟨hs.cache_eq, hs.pos_le, hs.len_ok, hs.none_len, hs.compl_none⟩, ⟨rfl, rfl, Nat.le_refl _, id, id, id⟩⟩
   · cases h
 
 /-- the lock changes hands only through `acquire()` on a free lock and `release()` by the owner -/
@@ -118,17 +124,19 @@ theorem stepIter_lock {sh sh' : Shared} {t : Tid} {it it' : Iter}
       obtain ⟨rfl, rfl⟩ := h
       exact ⟨by simp [PC.inCrit, hown], fun _ _ => Iff.rfl⟩
     · split at h
-      · -- the generator raises: the `finally` releases
-        simp only [Option.some.injEq, Prod.mk.injEq] at h
+      · simp only [Option.some.injEq, Prod.mk.injEq] at h
         obtain ⟨rfl, rfl⟩ := h
-        refine ⟨by simp [crashWith, PC.inCrit], fun t' ht' => ?_⟩
-        simp only [hown, Option.some.injEq, reduceCtorEq, false_iff]
-        exact fun e => ht' e.symm
-      · unfold step138ok at h
-        split at h <;> (
+        exact ⟨by simp [PC.inCrit, hown], fun _ _ => Iff.rfl⟩
+      · split at h
+        · -- the generator raises and E escapes: the `finally` releases
           simp only [Option.some.injEq, Prod.mk.injEq] at h
           obtain ⟨rfl, rfl⟩ := h
-          exact ⟨by simp [PC.inCrit, hown], fun _ _ => Iff.rfl⟩)
+          refine ⟨by simp [raiseTo, PC.inCrit], fun t' ht' => ?_⟩
+          simp only [hown, Option.some.injEq, reduceCtorEq, false_iff]
+          exact fun e => ht' e.symm
+        · simp only [Option.some.injEq, Prod.mk.injEq] at h
+          obtain ⟨rfl, rfl⟩ := h
+          exact ⟨by simp [PC.inCrit, hown], fun _ _ => Iff.rfl⟩
   · -- l144
     simp only [Option.some.injEq, Prod.mk.injEq] at h
     obtain ⟨rfl, rfl⟩ := h
@@ -150,6 +158,7 @@ theorem LInv_mono {sh sh' : Shared} {it : Iter} (hm : Mono sh sh') (hl : LInv sh
   all_goals first
     | exact hl
     | (rw [hsrc]; exact hl)
+    | (rw [hsrc, hm.err_eq]; exact hl)
     | (obtain ⟨h1, h2⟩ := hl; exact ⟨Y_mono hm h1, hm.len_keep h2⟩)
     | skip
   all_goals (
@@ -164,20 +173,23 @@ theorem LInv_finish_stop {sh : Shared} {it : Iter} (zs : List Int) (hsrc : sh.sr
   · simp only []; rw [hsrc]; exact List.prefix_append _ _
   · intro hq; simp only [] at hq; rw [hq] at hst; simp [stops] at hst
   · intro hsorted hq; simp only []; rw [answer_stop hsrc hst hsorted hq]
+    have : stops it.q sh.src = true := by rw [hsrc]; exact stops_append _ _ _ hst
+    rw [specE_of_stops _ this]
 
-theorem LInv_finish_all {sh : Shared} {it : Iter} (hy : it.yielded = sh.src) (he : Exh sh)
+theorem LInv_finish_all {sh : Shared} {it : Iter} (hs : SInv sh) (hy : it.yielded = sh.src) (he : Exh sh)
     (hc : it.crash = none) : LInv sh (finish sh it) := by
   unfold LInv finish
   refine ⟨hc, ?_, ?_, ?_⟩
   · simp only []; rw [hy]; exact List.prefix_refl _
   · intro _; exact hy
-  · intro hsorted hq; simp only []; rw [hy, answer_all he hsorted hq]
+  · intro hsorted hq; simp only []; rw [hy, answer_all he hsorted hq, hs.exh_noerr he]; rfl
 
 /-- a `yield` of `src[k]` to a consumer that has received `src.take k` -/
 theorem LInv_receive {sh : Shared} {it : Iter} {k : Nat} {x : Int} {next : PC}
     (hc : it.crash = none) (hy : it.yielded = sh.src.take k) (hx : sh.src[k]? = some x)
     (hnext : ∀ it2 : Iter, it2.crash = none → it2.pc = next → it2.yielded = sh.src.take (k + 1) →
-        it2.res = it.res → it2.i = it.i → it2.hasGen = it.hasGen → it2.pending = it.pending → LInv sh it2) :
+        it2.res = it.res → it2.i = it.i → it2.hasGen = it.hasGen → it2.pending = it.pending →
+        stops it2.q it2.yielded = false → LInv sh it2) :
     LInv sh (receive sh it x next) := by
   unfold receive
   simp only []
@@ -188,7 +200,8 @@ theorem LInv_receive {sh : Shared} {it : Iter} {k : Nat} {x : Int} {next : PC}
     · simp only []; rw [hy', List.take_append_drop]
     · exact hst
     · exact hc
-  · exact hnext _ hc rfl hy' rfl rfl rfl rfl
+  · rename_i hst
+    exact hnext _ hc rfl hy' rfl rfl rfl rfl (by simpa using hst)
 
 
 theorem stepIter_linv {sh sh' : Shared} {t : Tid} {it it' : Iter}
@@ -226,14 +239,14 @@ theorem stepIter_linv {sh sh' : Shared} {t : Tid} {it it' : Iter}
           simp only [entryKnown, Option.isSome_iff_exists] at hk
           obtain ⟨n, hn⟩ := hk
           have := (hs.len_ok n hn).1
-          simp only [entryRes, answer, hn, spec, this]
+          simp only [entryRes, answer, hn, spec, this, (hs.len_ok n hn).2.2, specE]
         | iterAll => rw [hq'] at hq; simp [hasEntryCheck] at hq
         | take k => rw [hq'] at hq; simp [hasEntryCheck] at hq
         | _ =>
           rw [hq'] at hk
           simp only [entryKnown] at hk
           simp only [entryRes, hs.exh_cache (e2 hk)]
-          rw [fast_eq_spec _ _ hsorted (by simpa [hq'] using hsm)]
+          rw [fast_eq_spec _ _ hsorted (by simpa [hq'] using hsm), hs.exh_noerr (e2 hk)]; rfl
     · unfold LInv; exact ⟨hc, hy, hr⟩
   · -- l107
     simp only [Option.some.injEq, Prod.mk.injEq] at h
@@ -259,7 +272,8 @@ theorem stepIter_linv {sh sh' : Shared} {t : Tid} {it it' : Iter}
       · rw [hy]; rfl
       · rw [hy]; exact hst
       · exact hc
-    · unfold LInv; exact ⟨hc, hy, hr⟩
+    · rename_i hst
+      unfold LInv; exact ⟨hc, hy, hr, by simpa using hst⟩
   · -- listIter
     simp only [Option.some.injEq, Prod.mk.injEq] at h
     obtain ⟨rfl, rfl⟩ := h
@@ -267,7 +281,7 @@ theorem stepIter_linv {sh sh' : Shared} {t : Tid} {it it' : Iter}
     split
     · rename_i hp
       rw [hp, List.append_nil] at hy
-      exact LInv_finish_all hy he hc
+      exact LInv_finish_all hs hy he hc
     · rename_i x rest hp
       rw [hp] at hy
       have hyt : it.yielded = sh.src.take it.yielded.length := by
@@ -275,7 +289,7 @@ theorem stepIter_linv {sh sh' : Shared} {t : Tid} {it it' : Iter}
       have hx : sh.src[it.yielded.length]? = some x := by
         rw [← hy]; simp
       apply LInv_receive (it := { it with pending := rest }) (k := it.yielded.length) hc hyt hx
-      intro it2 hc2 hpc2 hy2 hr2 _ _ hp2
+      intro it2 hc2 hpc2 hy2 hr2 _ _ hp2 _
       unfold LInv
       refine ⟨hc2, ?_⟩
       rw [hpc2]
@@ -306,8 +320,7 @@ theorem stepIter_linv {sh sh' : Shared} {t : Tid} {it it' : Iter}
       omega
   · -- l138
     obtain ⟨hy, hij, hj, hg⟩ := hl
-    rw [step138_eq hs.noraise] at h
-    unfold step138ok at h
+    unfold step138 at h
     split at h
     · simp only [Option.some.injEq, Prod.mk.injEq] at h
       obtain ⟨rfl, rfl⟩ := h
@@ -315,16 +328,43 @@ theorem stepIter_linv {sh sh' : Shared} {t : Tid} {it it' : Iter}
       refine ⟨hc, hy, ?_, hg⟩
       simp only [List.length_append, List.length_cons, List.length_nil]; omega
     · rename_i hx
-      simp only [Option.some.injEq, Prod.mk.injEq] at h
-      obtain ⟨rfl, rfl⟩ := h
       have hge : sh.src.length ≤ sh.genPos := by
         by_cases hcc : sh.genPos < sh.src.length
         · rw [List.getElem?_eq_getElem hcc] at hx; cases hx
         · omega
       have heq : sh.genPos = sh.src.length := by have := hs.pos_le; omega
-      unfold LInv
-      refine ⟨hc, hy, ?_⟩
-      simp only [Exh]; rw [heq]
+      have hclen : sh.cache.length = sh.src.length := by rw [hs.cache_eq, List.length_take]; omega
+      split at h
+      · simp only [Option.some.injEq, Prod.mk.injEq] at h
+        obtain ⟨rfl, rfl⟩ := h
+        unfold LInv
+        refine ⟨hc, hy, ?_⟩
+        simp only [Exh]; rw [heq]
+      · rename_i e hee
+        split at h
+        · -- E escapes to a consumer that has received all of `src` and has not stopped: what the uncached object does
+          rename_i hi
+          simp only [Option.some.injEq, Prod.mk.injEq] at h
+          obtain ⟨rfl, rfl⟩ := h
+          have hi' : it.i = sh.src.length := by rw [← hclen]; exact beq_iff_eq.mp hi
+          obtain ⟨hy1, _, hn⟩ := hy
+          have hall : it.yielded = sh.src := by rw [hy1, hi', List.take_length]
+          unfold LInv raiseTo
+          refine ⟨hc, ?_, fun _ => hall, fun _ _ => ?_⟩
+          · simp only []; rw [hall]; exact List.prefix_refl _
+          · simp only []
+            rw [hee]
+            simp only [specE]
+            rw [← hall, hn]; rfl
+        · rename_i hi
+          simp only [Option.some.injEq, Prod.mk.injEq] at h
+          obtain ⟨rfl, rfl⟩ := h
+          have hne : it.i ≠ sh.cache.length := by intro e; exact hi (beq_iff_eq.mpr e)
+          unfold LInv
+          refine ⟨hc, hy, ?_, fun _ => ⟨?_, hg⟩⟩
+          · intro hb; simp at hb
+          · show it.i < sh.cache.length
+            omega
   · -- l140
     simp only [Option.some.injEq, Prod.mk.injEq] at h
     obtain ⟨rfl, rfl⟩ := h
@@ -351,47 +391,45 @@ theorem stepIter_linv {sh sh' : Shared} {t : Tid} {it it' : Iter}
   · -- l145
     simp only [Option.some.injEq, Prod.mk.injEq] at h
     obtain ⟨rfl, rfl⟩ := h
-    obtain ⟨⟨hy, hr⟩, hi, hg⟩ := hl
+    obtain ⟨⟨hy, hr, hn⟩, hi, hg⟩ := hl
     split
     · rename_i x hx
       apply LInv_receive hc hy (hs.cache_get hx)
-      intro it2 hc2 hpc2 hy2 hr2 hi2 hg2 _
+      intro it2 hc2 hpc2 hy2 hr2 hi2 hg2 _ hn2
       unfold LInv
       refine ⟨hc2, ?_⟩
       rw [hpc2]
       simp only []
       rw [hi2, hg2]
-      exact ⟨⟨hy2, by rw [hr2]; exact hr⟩, hi, hg⟩
+      exact ⟨⟨hy2, by rw [hr2]; exact hr, hn2⟩, hi, hg⟩
     · rename_i hx
       rw [List.getElem?_eq_getElem hi] at hx; cases hx
   · -- l147
     simp only [Option.some.injEq, Prod.mk.injEq] at h
     obtain ⟨rfl, rfl⟩ := h
-    obtain ⟨⟨hy, hr⟩, he⟩ := hl
-    have he' : sh.len = some sh.src.length := he
-    rw [he']
-    simp only []
+    obtain ⟨⟨hy, hr, hn⟩, he⟩ := hl
+    have hcache := hs.exh_cache he
     split
     · rename_i hlt
-      unfold LInv; exact ⟨hc, ⟨hy, hr⟩, he, hlt⟩
+      unfold LInv; exact ⟨hc, ⟨hy, hr, hn⟩, he, by rw [← hcache]; exact hlt⟩
     · rename_i hge
-      apply LInv_finish_all _ he hc
-      rw [hy, List.take_of_length_le (by omega)]
+      apply LInv_finish_all hs _ he hc
+      rw [hy, List.take_of_length_le (by rw [← hcache]; omega)]
   · -- l148
     simp only [Option.some.injEq, Prod.mk.injEq] at h
     obtain ⟨rfl, rfl⟩ := h
-    obtain ⟨⟨hy, hr⟩, he, hi⟩ := hl
+    obtain ⟨⟨hy, hr, hn⟩, he, hi⟩ := hl
     have hcache := hs.exh_cache he
     split
     · rename_i x hx
       apply LInv_receive hc hy (hs.cache_get hx)
-      intro it2 hc2 hpc2 hy2 hr2 hi2 _ _
+      intro it2 hc2 hpc2 hy2 hr2 hi2 _ _ hn2
       unfold LInv
       refine ⟨hc2, ?_⟩
       rw [hpc2]
       simp only []
       rw [hi2]
-      exact ⟨⟨hy2, by rw [hr2]; exact hr⟩, he, hi⟩
+      exact ⟨⟨hy2, by rw [hr2]; exact hr, hn2⟩, he, hi⟩
     · rename_i hx
       rw [hcache, List.getElem?_eq_getElem hi] at hx; cases hx
   · cases h
